@@ -410,6 +410,13 @@ func verifyFunction(P *Program, db *SpecDB, ti *TypeInfo, fn *ssa.Function, c *C
 			e.unsupportedf("call-site invariant: no call site %s with an effects() callee in %s", key, fn)
 		}
 	}
+	for name, m := range c.InlinedLoops {
+		for n := range m {
+			if !c.callSeen["loop:"+name+"#"+fmt.Sprint(n)] {
+				e.unsupportedf("loop %d of %s: no such loop is inlined into %s (callee removed, renamed or given a contract?)", n, name, fn)
+			}
+		}
+	}
 	for _, key := range sortedKeys(c.CallAsserts) {
 		if !c.callSeen[key] {
 			e.unsupportedf("call-site assertion: no call site %s in %s (call removed or renumbered?)", key, fn)
